@@ -17,9 +17,11 @@ CONSTANTS Indices,     \* request indices explored, e.g. {-1, 0, 1, 2, 3, 4, 5, 
           InitStates   \* names of the initial TSM states
 
 Unbound == -1
-NoReq == [kind |-> "idle", index |-> 0, dlen |-> 0, hash |-> "none", log |-> "none"]
-DigestReqs == [kind : {"digest"}, index : Indices, dlen : DigestLens, hash : {"none"}, log : {"none"}]
-LogReqs    == [kind : {"log"}, index : Indices, dlen : {48}, hash : Hashes, log : {"empty", "nonempty"}]
+\* fault: the TSM write operation that fails during this call if it is reached (an environment fault; "none" in the model-checked histories,
+\* any of them in recorded ones)
+NoReq == [kind |-> "idle", index |-> 0, dlen |-> 0, hash |-> "none", log |-> "none", fault |-> "none"]
+DigestReqs == [kind : {"digest"}, index : Indices, dlen : DigestLens, hash : {"none"}, log : {"none"}, fault : {"none"}]
+LogReqs    == [kind : {"log"}, index : Indices, dlen : {48}, hash : Hashes, log : {"empty", "nonempty"}, fault : {"none"}]
 Requests   == DigestReqs \cup LogReqs
 
 \* C17, first sentence: the requests that must be refused
@@ -69,22 +71,32 @@ ReadIndex == /\ pc = "scan" /\ scan <= Len(tsm)
 NoneBound == /\ pc = "scan" /\ scan > Len(tsm) /\ pc' = "mkdir"
              /\ UNCHANGED <<tsm, req, scan, target, calls, writes, result, hist, init>>
 
+\* a failing TSM operation ends the call with an error; what was written before it stays (a directory, possibly bound), nothing is extended
+Fails(op) == /\ req.fault = op /\ result' = "error" /\ pc' = "idle"
+             /\ UNCHANGED <<tsm, req, scan, target, calls, writes, hist, init>>
+
 MkdirTemp == /\ pc = "mkdir"
-             /\ tsm' = Append(tsm, [idx |-> Unbound, chain |-> <<>>])
-             /\ target' = Len(tsm) + 1
-             /\ writes' = Append(writes, [op |-> "mkdir", entry |-> Len(tsm) + 1])
-             /\ pc' = "bind" /\ UNCHANGED <<req, scan, calls, result, hist, init>>
+             /\ \/ Fails("mkdir")
+                \/ /\ req.fault # "mkdir"
+                   /\ tsm' = Append(tsm, [idx |-> Unbound, chain |-> <<>>])
+                   /\ target' = Len(tsm) + 1
+                   /\ writes' = Append(writes, [op |-> "mkdir", entry |-> Len(tsm) + 1])
+                   /\ pc' = "bind" /\ UNCHANGED <<req, scan, calls, result, hist, init>>
 
 WriteIndex == /\ pc = "bind"
-              /\ tsm' = [tsm EXCEPT ![target].idx = req.index]
-              /\ writes' = Append(writes, [op |-> "index", entry |-> target])
-              /\ pc' = "extend" /\ UNCHANGED <<req, scan, target, calls, result, hist, init>>
+              /\ \/ Fails("index")
+                 \/ /\ req.fault # "index"
+                    /\ tsm' = [tsm EXCEPT ![target].idx = req.index]
+                    /\ writes' = Append(writes, [op |-> "index", entry |-> target])
+                    /\ pc' = "extend" /\ UNCHANGED <<req, scan, target, calls, result, hist, init>>
 
 WriteDigest == /\ pc = "extend"
-               /\ tsm' = [tsm EXCEPT ![target].chain = Append(@, calls)]     \* the digest of call number `calls`
-               /\ writes' = Append(writes, [op |-> "digest", entry |-> target])
-               /\ result' = "ok" /\ pc' = "idle"
-               /\ UNCHANGED <<req, scan, target, calls, hist, init>>
+               /\ \/ Fails("digest")
+                  \/ /\ req.fault # "digest"
+                     /\ tsm' = [tsm EXCEPT ![target].chain = Append(@, calls)]     \* the digest of call number `calls`
+                     /\ writes' = Append(writes, [op |-> "digest", entry |-> target])
+                     /\ result' = "ok" /\ pc' = "idle"
+                     /\ UNCHANGED <<req, scan, target, calls, hist, init>>
 
 Next == (\E r \in Requests : Call(r)) \/ Validate \/ ReadDir \/ ReadIndex \/ NoneBound \/ MkdirTemp \/ WriteIndex \/ WriteDigest
 Spec == Init /\ [][Next]_vars
@@ -98,11 +110,13 @@ AcceptedFor(i) == SelectSeq([k \in DOMAIN hist |-> IF Valid(hist[k]) /\ hist[k].
 
 RefusedWritesNothing == (Idle /\ calls > 0 /\ ~Valid(req)) => (result = "error" /\ writes = <<>>)
 OneEntryPerIndex == \A a, b \in DOMAIN tsm : (tsm[a].idx = tsm[b].idx /\ tsm[a].idx # Unbound) => a = b
-ExactlyOneExtend == (Idle /\ calls > 0 /\ Valid(req)) =>
+ExactlyOneExtend == (Idle /\ calls > 0 /\ Valid(req) /\ req.fault = "none") =>
                        /\ result = "ok"
                        /\ Len(SelectSeq(writes, LAMBDA x : x.op = "digest")) = 1
                        /\ writes[Len(writes)].op = "digest" /\ tsm[writes[Len(writes)].entry].idx = req.index
                        /\ Len(writes) \in {1, 3}
-RegistersAreChains == Idle => \A i \in 0..3 : Register(i) = AcceptedFor(i)
+RegistersAreChains == (Idle /\ \A k \in DOMAIN hist : hist[k].fault = "none") => \A i \in 0..3 : Register(i) = AcceptedFor(i)
+\* a call cut short by a TSM fault returns an error and extends nothing
+FaultedExtendsNothing == (Idle /\ calls > 0 /\ result = "error") => Len(SelectSeq(writes, LAMBDA x : x.op = "digest")) = 0
 NothingElseBound == \A k \in DOMAIN tsm : tsm[k].idx \in (0..3) \cup {Unbound}
 =================================================================================
